@@ -77,6 +77,18 @@ type ScenCase struct {
 	Weight int    `json:"weight,omitempty"` // weight of the first scenario (0 = 1)
 	// reflect_port set to a second listener that serves only reflection (the service is on the target port)
 	ReflectPort bool `json:"reflect_port,omitempty"`
+	// Bad: one scenario of the description ends with a call "bad" whose call name is not a method of the target
+	Bad *BadStep `json:"unknown_call,omitempty"`
+}
+
+// BadStep: scenario number Scen lists, after auth (and its marker call) and the first Keep of its calls, the call "bad"
+// (tag bad, metadata x-step: bad, a payload template over this invocation's token) whose call name is UnknownCall. It is
+// the last call the scenario lists, so that nothing depends on what becomes of the rest of an invocation after a failed
+// call.
+type BadStep struct {
+	UnknownCall
+	Scen int `json:"scenario"`
+	Keep int `json:"keep"`
 }
 
 type SRef struct {
@@ -98,14 +110,19 @@ func scenName(k int) string {
 
 // refs of scenario k (0 = the first one)
 func (c ScenCase) refs(k int) []SRef {
+	var out []SRef
 	if k == 0 {
-		out := make([]SRef, len(c.Calls))
+		out = make([]SRef, len(c.Calls))
 		for i, cl := range c.Calls {
 			out[i] = SRef{i, cl.Count}
 		}
-		return out
+	} else {
+		out = c.Extra[k-1].Refs
 	}
-	return c.Extra[k-1].Refs
+	if c.Bad != nil && c.Bad.Scen == k && c.Bad.Keep < len(out) {
+		out = out[:c.Bad.Keep] // the scenario ends with the unknown call after its first Keep calls
+	}
+	return out
 }
 
 func (c ScenCase) weight(k int) int {
@@ -202,6 +219,13 @@ func genScenCase(t *rapid.T) ScenCase {
 	}
 	if len(c.Extra) > 0 {
 		c.Weight = rapid.IntRange(1, 3).Draw(t, "weight0")
+	}
+	// one description in three: one of its scenarios ends with a call to a method the target does not have, whose name
+	// has one of many shapes; the invocations of the other scenarios (and the later invocations of this one) must go on
+	if rapid.IntRange(0, 2).Draw(t, "unknownCall") == 0 {
+		b := BadStep{UnknownCall: genUnknownCall(t), Scen: rapid.IntRange(0, len(c.Extra)).Draw(t, "unknownCallScenario")}
+		b.Keep = rapid.IntRange(0, len(c.refs(b.Scen))).Draw(t, "unknownCallAfter")
+		c.Bad = &b
 	}
 	return c
 }
@@ -314,6 +338,14 @@ func (c ScenCase) yaml(csv string, runID string) string {
 			sb.WriteString("    payload: '{\"name\": \"{{.request.auth.postprocessor.token}}\"}'\n")
 		}
 	}
+	if b := c.Bad; b != nil {
+		sb.WriteString("  - name: bad\n    tag: bad\n")
+		if !b.NoKey {
+			fmt.Fprintf(&sb, "    call: %s\n", yq(b.Name))
+		}
+		fmt.Fprintf(&sb, "    metadata:\n      x-step: bad\n      x-run: %s\n", runID)
+		sb.WriteString("    payload: '{\"name\": \"{{.request.auth.postprocessor.token}}\"}'\n")
+	}
 	sb.WriteString("scenarios:\n")
 	for k := 0; k <= len(c.Extra); k++ {
 		fmt.Fprintf(&sb, "  - name: %s\n    weight: %d\n    min_waiting_time: 0\n    requests:\n      - auth\n", scenName(k), c.weight(k))
@@ -326,6 +358,9 @@ func (c ScenCase) yaml(csv string, runID string) string {
 			} else {
 				fmt.Fprintf(&sb, "      - c%d(%d)\n", r.Call, r.Count)
 			}
+		}
+		if c.Bad != nil && c.Bad.Scen == k {
+			sb.WriteString("      - bad\n")
 		}
 	}
 	return sb.String()
@@ -444,6 +479,10 @@ func checkScen(c ScenCase, o *vf.Obs) error {
 		}
 		if !ok || v != runID {
 			return fail("%s call arrived with x-run metadata %q, every call of the description carries the literal %q", call.Method, v, runID)
+		}
+		if step, _ := one(call, "x-step"); step == "bad" {
+			return fail("the call \"bad\" names %q (shape %s), which is not a method of the target, but the server received a %s call with its metadata: %v",
+				c.Bad.Name, c.Bad.Shape, call.Method, call.Req)
 		}
 		calls = append(calls, call)
 	}
@@ -667,10 +706,16 @@ func checkScen(c ScenCase, o *vf.Obs) error {
 		if len(f) != 12 {
 			return fmt.Errorf("phout line with %d columns: %q", len(f), ln)
 		}
-		if f[11] != "200" {
+		tag := strings.SplitN(f[1], "|", 2)[0]
+		if c.Bad != nil && tag == scenName(c.Bad.Scen)+".bad" {
+			// "an unknown method ... yields a failed sample for that entry"
+			if f[11] == "200" {
+				return fail("the call \"bad\" names %q (shape %s), which is not a method of the target, but its sample reports success: %q", c.Bad.Name, c.Bad.Shape, ln)
+			}
+		} else if f[11] != "200" {
 			return fail("a call answered OK left a sample with code %s: %q", f[11], ln)
 		}
-		tags[strings.SplitN(f[1], "|", 2)[0]]++
+		tags[tag]++
 	}
 	wantTags := map[string]int{}
 	for _, iv := range invs {
@@ -681,6 +726,9 @@ func checkScen(c ScenCase, o *vf.Obs) error {
 		}
 		for _, r := range c.refs(iv.scen) {
 			wantTags[fmt.Sprintf("%s.t%d", sn, r.Call)] += r.Count
+		}
+		if c.Bad != nil && c.Bad.Scen == iv.scen {
+			wantTags[sn+".bad"]++ // one failed sample per invocation of the scenario that lists the unknown call
 		}
 	}
 	if fmt.Sprint(sortedCounts(tags)) != fmt.Sprint(sortedCounts(wantTags)) {
@@ -734,6 +782,17 @@ func checkScen(c ScenCase, o *vf.Obs) error {
 			fnMD = fnMD || m.Kind == "fmt" || m.random()
 			randMD = randMD || m.random()
 		}
+	}
+	if b := c.Bad; b != nil {
+		badShot := scenSeen[b.Scen]
+		o.Class("unknown_call_name", "unknown_call_"+b.Shape)
+		o.ClassIf(badShot > 0, "unknown_call_shot")
+		o.ClassIf(badShot > 0 && b.withoutDot(), "unknown_call_name_without_dot_shot")
+		// invocations that must go on around the failed ones: those of other scenarios (or, shot >= 2 times, the later ones of the same)
+		o.ClassIf(badShot > 0 && len(invs) > badShot, "unknown_call_among_good_scenarios")
+		o.ClassIf(badShot > 0 && b.withoutDot() && len(invs) > badShot, "unknown_call_name_without_dot_among_good_scenarios")
+		o.ClassIf(badShot >= 2, "unknown_call_shot_ge_2_times")
+		o.ClassIf(badShot > 0 && b.Keep > 0, "unknown_call_after_good_calls")
 	}
 	o.ClassIf(fixedShot, "fixed_payload_call")
 	o.ClassIf(fixedTemplated, "fixed_payload_templated_metadata")
